@@ -51,9 +51,11 @@ Theorem C07_bytes_accounted : forall max s init ops st rets,
   hist_stream (rf_hist st) ++ rf_cur st = init ++ written_of ops.
 Proof. exact bytes_accounted. Qed.
 
-(* rotate() always finds a name that does not exist yet *)
-Theorem C07_rotated_name_is_fresh : forall s d, ~ In (s, free_k s d) (map fst d).
-Proof. exact free_k_fresh. Qed.
+(* rotate() always finds a name that does not exist yet, and it is the first one in the order
+   <ts>, <ts>.1, <ts>.2, ... (what the Lstat loop of the Go code computes) *)
+Theorem C07_rotated_name_is_fresh : forall s d,
+  ~ In (s, free_k s d) (map fst d) /\ (forall j, (j < free_k s d)%N -> In (s, j) (map fst d)).
+Proof. exact free_k_spec. Qed.
 
 (* ALL histories (writes with any batching, any clock, outside removals and renames of the log
    file, restarts): the files that left <path>, oldest first, followed by the active file hold
